@@ -79,6 +79,12 @@ def gen_ops(rng, tier):
                     for _ in range(2):
                         a = _amount(rng)
                         yield ("add", rng.choice(MODES), str(zi), w, f) + a
+                    # amounts equal to the size of this transition, either sign, written in different unit splits: inside a repeated
+                    # period the result has the same wall reading as the start (other occurrence); the instant must still move
+                    h, rem = divmod(jump, 3600)
+                    for a in ((h, rem // 60, rem % 60, 0), (0, 0, jump, 0), (h + 1, rem // 60 - 60, rem % 60, 0), (0, jump // 60, rem % 60, 0)):
+                        sg = rng.choice((1, -1))
+                        yield ("add", rng.choice(MODES), str(zi), w, f) + tuple(sg * x for x in a)
                     # amounts that land exactly on / just before the next transitions
                     nxt = [tt for tt, _ in trs if tt * US > u][:2]
                     for tt in nxt:
